@@ -25,6 +25,16 @@ Insp(name, namec, cmd, strict) ==
           ELSE <<Simple("ALLOW", <<"*">>)>>]
 I1(cmd, strict) == Insp("i1", <<"i", "1">>, cmd, strict)
 I2(cmd) == Insp("i2", <<"i", "2">>, cmd, FALSE)
+\* between two inspections the verifier itself writes the first one's link file into the working directory:
+\* it is a MATERIAL of the second inspection and subject to its rules like any other file
+I1Link == <<"i", "1", ".", "l", "i", "n", "k">>
+I2m(cmd, how) ==
+  [I2(cmd) EXCEPT !.em = CASE how = "disallow_link" -> <<Simple("DISALLOW", I1Link), Simple("ALLOW", <<"*">>)>>
+                           [] how = "require_link"  -> <<Simple("REQUIRE", I1Link), Simple("ALLOW", <<"*">>)>>
+                           [] how = "only_g"        -> <<Simple("ALLOW", PG), Simple("ALLOW", <<"S", ".", "*">>), Simple("DISALLOW", <<"*">>)>>
+                           [] OTHER                 -> <<Simple("ALLOW", <<"*">>)>>,
+                    !.ep = CASE how = "create_link" -> <<Simple("CREATE", I1Link), Simple("ALLOW", <<"*">>)>>
+                           [] OTHER                 -> <<Simple("ALLOW", <<"*">>)>>]
 J1 == Insp("j1", <<"j", "1">>, Cmd("exit", 0, "none"), FALSE)
 
 \* "rule_match_insp": the failing step also has a MATCH rule that names an INSPECTION (no link for that
@@ -67,6 +77,9 @@ MCInit ==
           scn = Build(Layout(cause, <<I1(Cmd(ck[1], ck[2], eff), strict)>>), Own("o1"), Files(cause), Cwd0)
      \/ \E c1 \in {<<"exit", 0>>, <<"exit", 1>>}, e1 \in Effects, c2 \in CmdKinds, strict \in BOOLEAN :
           scn = Build(Layout("none", <<I1(Cmd(c1[1], c1[2], e1), strict), I2(Cmd(c2[1], c2[2], "none"))>>),
+                      Own("o1"), Files("none"), Cwd0)
+     \/ \E e1 \in Effects, how \in {"allow", "disallow_link", "require_link", "only_g", "create_link"} :
+          scn = Build(Layout("none", <<I1(Cmd("exit", 0, e1), FALSE), I2m(Cmd("exit", 0, "none"), how)>>),
                       Own("o1"), Files("none"), Cwd0)
   /\ VInitRest
 
